@@ -180,6 +180,8 @@ pub fn layouts(thorough: bool) -> Vec<(String, in_toto::models::LayoutMetadata)>
             ("ed25519-one-alg", PublicKey::from_ed25519_with_keyid_hash_algorithms(keys::ED1_PUB.to_vec(), Some(vec!["sha256".to_string()])).unwrap()),
             ("ecdsa-raw", PublicKey::from_ecdsa(keys::get("ec1").public().as_bytes().to_vec()).unwrap()),
             ("ecdsa-reordered-algs", PublicKey::from_ecdsa_with_keyid_hash_algorithms(keys::get("ec2").public().as_bytes().to_vec(), Some(vec!["sha512".to_string(), "sha256".to_string()])).unwrap()),
+            ("ed25519-empty-alg-list", PublicKey::from_ed25519_with_keyid_hash_algorithms(keys::ED1_PUB.to_vec(), Some(vec![])).unwrap()),
+            ("ecdsa-empty-alg-list", PublicKey::from_ecdsa_with_keyid_hash_algorithms(keys::get("ec3").public().as_bytes().to_vec(), Some(vec![])).unwrap()),
             ("rsa-spki-sha512", PublicKey::from_spki(keys::RSA_SPKI[1], SignatureScheme::RsaSsaPssSha512).unwrap()),
             ("ed25519-spki", PublicKey::from_spki(keys::ED_SPKI_RFC8410[1], SignatureScheme::Ed25519).unwrap()),
             ("ecdsa-spki", PublicKey::from_spki(keys::EC_SPKI[2], SignatureScheme::EcdsaP256Sha256).unwrap()),
